@@ -14,12 +14,14 @@ mod clock;
 mod script;
 mod exec;
 mod gen;
+mod imgbuild;
+mod tools;
 
 use std::io::Write;
 use util::Tier;
 
 fn usage() -> ! {
-    eprintln!("usage: harness pure <suite> <quick|thorough> <seed> | harness gen|hist <scenario> <quick|thorough> <seed> [args] | harness exec < script");
+    eprintln!("usage: harness pure <suite> <quick|thorough> <seed> | harness gen|hist <scenario> <quick|thorough> <seed> [args] | harness exec < script | harness tracehash < trace | harness uppertable");
     std::process::exit(2)
 }
 
@@ -33,6 +35,18 @@ fn main() {
         let stdout = std::io::stdout();
         let mut out = std::io::BufWriter::with_capacity(1 << 20, stdout.lock());
         exec::exec_script(&mut stdin.lock(), &mut out);
+        out.flush().unwrap();
+        return;
+    }
+    if args.len() >= 2 && (args[1] == "uppertable" || args[1] == "tracehash") {
+        let stdin = std::io::stdin();
+        let stdout = std::io::stdout();
+        let mut out = std::io::BufWriter::with_capacity(1 << 20, stdout.lock());
+        if args[1] == "uppertable" {
+            tools::uppertable(&mut out);
+        } else {
+            tools::tracehash(&mut stdin.lock(), &mut out);
+        }
         out.flush().unwrap();
         return;
     }
